@@ -8,7 +8,7 @@ TRACE_MODULE = 'C18Trace.tla'
 RULE = ('records = byte strings: all 256 one-byte strings (every table entry of both tables), all two-byte strings '
         '(thorough) or a seeded 1/32 sample (quick), structured lengths 0..64 x patterns, seeded-random strings up to '
         '4 KiB; crafted strings (up to 64 KiB + 37) whose internal register is exactly zero at every power-of-two boundary; both byte orders also '
-        'named by run-time string objects; distinct = distinct byte strings of length >= 1')
+        'named by run-time string objects and by keyword; the data also held by bytearray / memoryview objects; distinct = distinct byte strings of length >= 1')
 ASSUMPTIONS = ['TonCrc bit-serial definitions anchored on the catalogue check values for "123456789" (ASSUME in MC_Crc)',
                'TLC/SANY 1.8.0 and CommunityModules Bitwise xor']
 EXHAUSTIVE = {'quick': False, 'thorough': False}
@@ -21,10 +21,19 @@ def model_checks(tier):
     return [dict(name='crc_algebra', module='MC_Crc.tla', cfg=cfg, workers=8)]
 
 
-def rec(data, dyn=False):
+def rec(data, dyn=False, forms=False):
     data = bytes(data)
     r = {'op': 'crc', 'data': list(data), 'c16': list(crc16(data)), 'c32le': list(crc32c(data)),
          'c32be': list(crc32c(data, 'big'))}
+    if forms:
+        # the data held by other bytes-like objects (Cell.to_boc itself passes a bytearray), the byte order given by position or keyword
+        r['forms'] = []
+        for mk in (bytearray, memoryview, lambda d: memoryview(bytearray(d))):
+            try:
+                r['forms'].append({'c16': list(crc16(mk(data))), 'le': list(crc32c(mk(data))), 'be': list(crc32c(mk(data), 'big')),
+                                   'bek': list(crc32c(mk(data), byteorder='big')), 'lek': list(crc32c(mk(data), byteorder='little'))})
+            except Exception as e:
+                r['forms'].append({'err': type(e).__name__})
     if dyn:
         # the byte order named by string objects created at run time (equal to, but not identical with, the literals)
         r['be2'] = list(crc32c(data, ''.join(['b', 'i', 'g'])))
@@ -85,6 +94,8 @@ def generate(tier, seed, ctx):
         out.append(rec(bytes(rng.getrandbits(8) for _ in range(n))))
     for r in rng.sample(out, 40):
         r.update(rec(r['data'], dyn=True))
+    for r in out[:4] + rng.sample(out, 60):
+        r.update(rec(r['data'], forms=True))
     # registers passing through zero at block boundaries (every power of two up to 64 KiB, and just around them)
     pw = [2 ** k for k in range(3, 17)]
     out.append(rec(register_zero_input(rng, pw, 37, 32), dyn=True))
